@@ -39,6 +39,53 @@ Lemma close_discipline_reads l t : close_discipline (reads l ++ t) = close_disci
 Proof. induction l; simpl; auto. Qed.
 
 (** * the body reader *)
+(** The loop with the generated expressions (Gen/WsgiReader.v) unfolded: this is
+    where a change of an operator or operand in wsgi.py reaches the proofs. *)
+Lemma read_loop_nil c length declared br :
+  read_loop c length declared br [] =
+  if br <? length then
+    if Z.min (bl c) (length - br) + br >? mcl c then ([], RTooLong)
+    else ([(Z.min (bl c) (length - br), 0)], RDone)
+  else ([], if declared then RDone else RTooLong).
+Proof.
+  cbn [read_loop]. cbv [rd_loop_cond rd_to_read rd_loop_too_long rd_eof rd_after_loop_too_long].
+  destruct (br <? length); [|destruct declared; reflexivity].
+  destruct (_ >? _); reflexivity.
+Qed.
+
+Lemma read_loop_cons c length declared br a rest :
+  read_loop c length declared br (a :: rest) =
+  if br <? length then
+    if Z.min (bl c) (length - br) + br >? mcl c then ([], RTooLong)
+    else if answer (Z.min (bl c) (length - br)) a =? 0 then ([(Z.min (bl c) (length - br), 0)], RDone)
+         else let '(t, r) := read_loop c length declared (br + answer (Z.min (bl c) (length - br)) a) rest in
+              ((Z.min (bl c) (length - br), answer (Z.min (bl c) (length - br)) a) :: t, r)
+  else ([], if declared then RDone else RTooLong).
+Proof.
+  cbn [read_loop]. cbv [rd_loop_cond rd_to_read rd_loop_too_long rd_eof rd_after_loop_too_long].
+  destruct (br <? length); [|destruct declared; reflexivity].
+  destruct (_ >? _); [reflexivity|]. cbn [orb].
+  destruct (answer (Z.min (bl c) (length - br)) a =? 0) eqn:E; [|reflexivity].
+  apply Z.eqb_eq in E. rewrite E. reflexivity.
+Qed.
+
+Lemma up_front_eq c length : rd_up_front_too_long (mcl c) (bl c) length = (length >? mcl c).
+Proof. reflexivity. Qed.
+Lemma undeclared_eq c : rd_undeclared_length (mcl c) (bl c) = mcl c.
+Proof. reflexivity. Qed.
+Lemma empty_eq : rd_empty_length = 0.
+Proof. reflexivity. Qed.
+
+Lemma read_loop_no_diverge c length declared :
+  forall st br t, read_loop c length declared br st <> (t, RDiverge).
+Proof.
+  induction st as [|a rest IH]; intros br t.
+  - rewrite read_loop_nil. destruct (br <? length); [destruct (_ >? _)|destruct declared]; congruence.
+  - rewrite read_loop_cons. destruct (br <? length); [|destruct declared; congruence].
+    destruct (_ >? _); [congruence|]. destruct (_ =? 0); [congruence|].
+    destruct (read_loop c length declared _ rest) as [t' r'] eqn:E.
+    intros H; inversion H; subst. eapply IH; eassumption.
+Qed.
 Lemma answer_le n a : 0 <= n -> 0 <= answer n a <= n.
 Proof. unfold answer. intros. destruct (n <? 0) eqn:?; lia. Qed.
 
@@ -46,7 +93,7 @@ Lemma read_loop_sum c length declared : 0 <= bl c ->
   forall st br t r, read_loop c length declared br st = (t, r) ->
                     sumz (map snd t) <= Z.max 0 (length - br).
 Proof.
-  intros Hbl. induction st as [|a rest IH]; intros br t r; simpl.
+  intros Hbl. induction st as [|a rest IH]; intros br t r; [rewrite read_loop_nil | rewrite read_loop_cons].
   - destruct (br <? length) eqn:E1.
     + destruct (Z.min (bl c) (length - br) + br >? mcl c) eqn:E2; intros H; inversion H; subst; simpl; lia.
     + intros H; inversion H; subst; simpl; lia.
@@ -75,7 +122,7 @@ Lemma read_loop_asks c length declared : 0 <= bl c ->
   forall st br t r, read_loop c length declared br st = (t, r) ->
                     asks_within (Z.max 0 (length - br)) (reads t).
 Proof.
-  intros Hbl. induction st as [|a rest IH]; intros br t r; simpl.
+  intros Hbl. induction st as [|a rest IH]; intros br t r; [rewrite read_loop_nil | rewrite read_loop_cons].
   - destruct (br <? length) eqn:E1.
     + destruct (Z.min (bl c) (length - br) + br >? mcl c) eqn:E2; intros H; inversion H; subst; simpl; auto.
       split; auto. lia.
@@ -102,7 +149,7 @@ Lemma read_loop_undeclared c length :
   forall st br t, read_loop c length false br st = (t, RDone) ->
                   (exists n, In (n, 0) t) /\ br + sumz (map snd t) < length.
 Proof.
-  induction st as [|a rest IH]; intros br t; simpl.
+  induction st as [|a rest IH]; intros br t; [rewrite read_loop_nil | rewrite read_loop_cons].
   - destruct (br <? length) eqn:E1; [|discriminate].
     destruct (_ >? _); [discriminate|].
     intros H; inversion H; subst; simpl. split; [eexists; left; reflexivity | lia].
@@ -220,9 +267,14 @@ Lemma run_responds c r : total_layers r -> join_ok c r ->
 Proof.
   intros (Hg & Hi & [ch0 He]) Hj.
   crush_run; try (do 5 eexists; reflexivity);
-    try (exfalso; eapply Hg; eassumption); try (exfalso; eapply Hi; eassumption).
+    try (exfalso; eapply Hg; eassumption); try (exfalso; eapply Hi; eassumption);
+    try (exfalso; eapply read_loop_no_diverge; eassumption).
   all: destruct Hj as [Hj | Hj]; [congruence | exfalso; eapply Hj; eassumption].
 Qed.
+
+(** the callable always returns or raises (the reader loop ends on an ended stream) *)
+Lemma run_not_diverges c r : o_resp (run c r) <> Diverges.
+Proof. crush_run; exfalso; eapply read_loop_no_diverge; eassumption. Qed.
 
 Lemma fin_facts fin : fin = finalize \/ fin = [CtxClose] ->
   quiet is_start fin = true /\ quiet is_chunk fin = true /\ quiet is_user fin = true
@@ -240,7 +292,7 @@ Lemma start_discipline_holds c r : start_discipline (trace c r) = true.
 Proof.
   rewrite trace_eq, start_discipline_reads.
   assert (H : start_discipline (respond (o_resp (run c r)) (take r) (closes r)) = true).
-  { destruct (o_resp (run c r)) as [e | k cl ch f fin] eqn:E; simpl; auto.
+  { destruct (o_resp (run c r)) as [e | | k cl ch f fin] eqn:E; simpl; auto.
     destruct (fin_facts fin (run_fin _ _ _ _ _ _ _ E)) as (H1 & _).
     apply serve_quiet; auto. }
   destruct (o_user (run c r)); simpl; auto.
@@ -263,7 +315,8 @@ Qed.
 Lemma no_start_raises c r : count is_start (trace c r) = 0%nat ->
   exists e, o_resp (run c r) = Escapes e.
 Proof.
-  rewrite trace_eq, !count_app. destruct (o_resp (run c r)) as [e | k cl ch f fin]; [eauto|].
+  rewrite trace_eq, !count_app. pose proof (run_not_diverges c r) as Hd.
+  destruct (o_resp (run c r)) as [e | | k cl ch f fin]; [eauto | congruence |].
   simpl. unfold count at 3. simpl. lia.
 Qed.
 
@@ -282,8 +335,9 @@ Proof.
   rewrite trace_eq, !in_app_iff. intros [H | [H | H]].
   - apply in_reads in H as (n & g & H). discriminate.
   - destruct (o_user (run c r)); simpl in H; [destruct H as [H|[]]; discriminate | destruct H].
-  - destruct (o_resp (run c r)) as [e | k' cl' ch f fin] eqn:E; simpl in H.
+  - destruct (o_resp (run c r)) as [e | | k' cl' ch f fin] eqn:E; simpl in H.
     + destruct H as [H|[]]; discriminate.
+    + destruct H.
     + destruct H as [H | H]; [inversion H; subst; eauto|].
       destruct (fin_facts fin (run_fin _ _ _ _ _ _ _ E)) as (H1 & _).
       assert (Hq : quiet is_start (serve ch f fin (take r) (closes r)) = true) by (apply serve_quiet; auto).
@@ -307,7 +361,7 @@ Lemma total_read_respond rs tk cl :
   (forall k c ch f fin, rs = Responds k c ch f fin -> total_read fin = 0) ->
   total_read (respond rs tk cl) = 0.
 Proof.
-  destruct rs as [e | k c ch f fin]; simpl; auto. intros H.
+  destruct rs as [e | | k c ch f fin]; simpl; auto. intros H.
   unfold total_read. simpl. apply serve_total_read. eapply H; reflexivity.
 Qed.
 
@@ -325,12 +379,12 @@ Lemma run_reads c r :
 Proof.
   unfold run. destruct (is_wsdl r); [left; reflexivity|].
   unfold handle_rpc. destruct (declared_length c (clen r)) as [|length declared]; [left; reflexivity|].
-  destruct (length >? mcl c) eqn:E; [left; reflexivity|].
+  rewrite up_front_eq. destruct (length >? mcl c) eqn:E; [left; reflexivity|].
   destruct (consume r).
   - destruct (read_loop c length declared 0 (stream r)) as [t rr] eqn:E2.
     right. exists length, declared, rr. split; [lia|].
     rewrite E2. f_equal.
-    destruct rr; [|reflexivity].
+    destruct rr; [|reflexivity|reflexivity].
     destruct (s_gen r); try reflexivity. destruct (s_in r); try reflexivity.
     destruct (s_user r) as [[|[]]|]; reflexivity.
   - left. destruct (s_gen r); try reflexivity. destruct (s_in r); try reflexivity.
@@ -364,8 +418,9 @@ Lemma respond_noread c r e : In e ((if o_user (run c r) then [User] else [])
 Proof.
   intros H n g ->. apply in_app_iff in H as [H | H].
   - destruct (o_user (run c r)); simpl in H; [destruct H as [H|[]]; discriminate | destruct H].
-  - destruct (o_resp (run c r)) as [x | k cl ch f fin] eqn:E; simpl in H.
+  - destruct (o_resp (run c r)) as [x | | k cl ch f fin] eqn:E; simpl in H.
     + destruct H as [H|[]]; discriminate.
+    + destruct H.
     + destruct H as [H | H]; [discriminate|].
       assert (Hq : quiet (fun e => match e with Read _ _ => true | _ => false end)
                          (serve ch f fin (take r) (closes r)) = true).
@@ -388,7 +443,7 @@ Lemma too_long_declared c r s n : is_wsdl r = false -> clen r = Some s -> int_of
 Proof.
   intros Hw Hc Hi Hn. unfold run. rewrite Hw. unfold handle_rpc, declared_length. rewrite Hc.
   destruct s as [|x s]; [vm_compute in Hi; discriminate|].
-  rewrite Hi. destruct (n >? mcl c) eqn:E; [reflexivity | lia].
+  rewrite Hi, up_front_eq. destruct (n >? mcl c) eqn:E; [reflexivity | lia].
 Qed.
 
 Lemma user_in_trace c r : In User (trace c r) -> o_user (run c r) = true.
@@ -396,8 +451,9 @@ Proof.
   rewrite trace_eq, !in_app_iff. intros [H | [H | H]].
   - apply in_reads in H as (n & g & H). discriminate.
   - destruct (o_user (run c r)); auto; try destruct H.
-  - destruct (o_resp (run c r)) as [e | k cl ch f fin] eqn:E; simpl in H.
+  - destruct (o_resp (run c r)) as [e | | k cl ch f fin] eqn:E; simpl in H.
     + destruct H as [H|[]]; discriminate.
+    + destruct H.
     + destruct H as [H | H]; [discriminate|].
       destruct (fin_facts fin (run_fin _ _ _ _ _ _ _ E)) as (_ & _ & H1 & _).
       assert (Hq : quiet is_user (serve ch f fin (take r) (closes r)) = true) by (apply serve_quiet; auto).
@@ -426,11 +482,12 @@ Proof.
     assert (declared = true) as ->.
     { unfold declared_length in Hd. destruct s; [inversion Hd; auto|].
       destruct (int_of_text (z :: s)); inversion Hd; auto. }
+    rewrite up_front_eq in Hu.
     destruct (length >? mcl c) eqn:E; [discriminate Hu|]. exists length. split; auto. lia.
-  - intros Hcons. simpl in *. rewrite Hcons in *.
+  - intros Hcons. cbn [declared_length] in *. rewrite undeclared_eq, up_front_eq, Hcons in *.
     destruct (mcl c >? mcl c) eqn:E; [lia|].
     destruct (read_loop c (mcl c) false 0 (stream r)) as [t rr] eqn:E2.
-    destruct rr; [|discriminate Hu].
+    destruct rr; [|discriminate Hu|discriminate Hu].
     destruct (read_loop_undeclared _ _ _ _ _ E2) as [[n Hn] Hs].
     match goal with |- context [o_reads ?X] => assert (Ho : o_reads X = t) end.
     { destruct (s_gen r); try reflexivity. destruct (s_in r); try reflexivity.
@@ -443,7 +500,7 @@ Lemma close_discipline_holds c r : close_discipline (trace c r) = true.
 Proof.
   rewrite trace_eq, close_discipline_reads.
   assert (H : close_discipline (respond (o_resp (run c r)) (take r) (closes r)) = true).
-  { destruct (o_resp (run c r)) as [e | k cl ch f fin] eqn:E; simpl; auto.
+  { destruct (o_resp (run c r)) as [e | | k cl ch f fin] eqn:E; simpl; auto.
     destruct (fin_facts fin (run_fin _ _ _ _ _ _ _ E)) as (_ & H2 & _ & _ & _ & H6 & _).
     apply serve_close_discipline; auto. }
   destruct (o_user (run c r)); simpl; auto.
